@@ -113,6 +113,9 @@ func (c11) Generate(r *engine.Rand, index int, tier string) *engine.Scenario {
 		sc.Audio = r.Chance(1, 3)
 		sc.Video = r.Chance(1, 3)
 	}
+	if sc.Cart.Kind != "raw" && r.Chance(1, 3) {
+		sc.Cart.HeaderEveryPage = true // like a multi-game cartridge: logo and header repeated in every page
+	}
 	sc.Cycles = uint64(r.Range(2000, 50000))
 	for i, n := 0, r.Intn(8); i < n; i++ {
 		if r.Bool() {
